@@ -59,6 +59,9 @@ class Harness:
         self.tagc = 0
         self.npid = 0
         self.last_kind = {}
+        self.last_epoch = {}   # kind -> epoch (number of reset() calls so far) in which that handle was created
+        self.epoch = 0
+        self.pre_specs = []    # (tag, time, tgt, kind, daemon) of everything scheduled before a run: what reset() replays
         self.cont_tag = {}
         self.defs = {(d["ent"], d["kind"]): d for d in prog["defs"]}
         self.futs = {}
@@ -139,6 +142,7 @@ class Harness:
                         daemon=bool(daemon), context={"metadata": {"tag": tag}})
         self.trace.append(f"c {tag} {time_ns} {tgt} {kind} {1 if daemon else 0} {clock_ns}")
         self.last_kind[kind] = (ev, tag)
+        self.last_epoch[kind] = self.epoch
         if hook:
             ev.add_completion_hook(self.make_hook(hook))
         return ev
@@ -174,7 +178,9 @@ class Harness:
                 p = self.last_kind.get(a[1])
                 if p is not None:
                     p[0].cancel()
-                    self.trace.append(f"x {p[1]}")
+                    # a handle from before a reset() refers to an event of the discarded heap; its tag may
+                    # have been handed on to the replayed copy, which this cancel() does not touch
+                    self.trace.append(f"x {p[1]}" if self.last_epoch.get(a[1], 0) == self.epoch else f"xo {p[1]}")
             elif op == "R":
                 self.trace.append(f"r {a[1]} {a[2]}")
                 self.fut(a[1]).resolve(a[2])
@@ -208,6 +214,7 @@ class Harness:
         for p in self.prog["pre"]:
             ev = self.make_event(p["time"], p["tgt"], p["kind"], p["daemon"], p["hook"], 0)
             self.sim.schedule(ev)
+            self.pre_specs.append((self.tagc, p["time"], p["tgt"], p["kind"], p["daemon"]))
             if p.get("cancelled"):
                 ev.cancel()
                 self.trace.append(f"x {self.tagc}")
@@ -222,6 +229,26 @@ class Harness:
                             daemon=bool(hd["daemon"]), context={"metadata": {"tag": tag}})
             self.held[i] = (ev, tag, (hd["time"], hd["tgt"], hd["kind"], hd["daemon"]))
         return self.sim
+
+    # ------------------------------------------------------------------ operations from outside the loop (C04 scripts)
+    def clock_ns(self):
+        return self.ents[0].now.nanoseconds
+
+    def inject(self, time_ns, tgt, kind, daemon, pre_run):
+        """sim.schedule(Event(...)) from outside the event loop (before run() or while paused)"""
+        ev = self.make_event(time_ns, tgt, kind, daemon, 0, self.clock_ns())
+        self.sim.schedule(ev)
+        if pre_run:
+            self.pre_specs.append((self.tagc, time_ns, tgt, kind, daemon))
+
+    def reset(self):
+        """control.reset(): marker in log and trace, then the re-created pre-run events (same tags: the
+        metadata is copied) as creations of the new epoch.  Entity-side state is deliberately kept."""
+        self.sim.control.reset()
+        self.epoch += 1
+        self.emit_log("RST")
+        for tag, t, tgt, kind, dm in self.pre_specs:
+            self.trace.append(f"c {tag} {t} {tgt} {kind} {1 if dm else 0} 0")
 
     def run(self, driver=None):
         """driver(sim) performs the run (default: sim.run()); returns transcript"""
